@@ -333,6 +333,12 @@ class Waiting(State):
             self.done_callback = None
         self._waiting_future = futures.Future()
 
+    def exit(self) -> None:
+        super().exit()
+        if not self._waiting_future.done():
+            # The state is being left while a step may still be waiting on it (e.g. through fail()): let it return
+            self._waiting_future.set_result(NULL)
+
     def interrupt(self, reason: Any) -> None:
         # This will cause the future in execute() to raise the exception
         self._waiting_future.set_exception(reason)
